@@ -613,7 +613,8 @@ func convertValue(val reflect.Value, targetType reflect.Type) (reflect.Value, bo
 
 	// Handle float to string
 	if (val.Kind() == reflect.Float32 || val.Kind() == reflect.Float64) && targetType.Kind() == reflect.String {
-		return reflect.ValueOf(fmt.Sprintf("%v", val.Float())), true
+		// (formatted at the value's own precision: float32(1.1) is "1.1")
+		return reflect.ValueOf(fmt.Sprintf("%v", val.Interface())), true
 	}
 
 	// Handle bool to string
